@@ -42,7 +42,14 @@ impl Pol {
             Pol::Fractional => ReconnectPolicy::fixed(Duration::from_micros(2750)),
         }
     }
-    /// lower bound (ms, rounded down) of the configured delay for attempt index a
+    /// upper bound (ms) of the configured delay for attempt index a
+    fn delay_hi(&self, a: usize) -> f64 {
+        match self {
+            Pol::Jittered => self.delay_lo(a) * 3.0, // (1 + 0.5) / (1 - 0.5)
+            _ => self.delay_lo(a),
+        }
+    }
+    /// lower bound (ms) of the configured delay for attempt index a
     fn delay_lo(&self, a: usize) -> f64 {
         let exp = |init: f64, m: f64, cap: f64| (init * m.powi(a as i32)).min(cap);
         match self {
@@ -227,6 +234,14 @@ fn run_one(cfg: &Cfg, prelude: &[u8], script: &[u8], trace: bool) -> (Vec<(Strin
         if gap < need {
             viols.push(("retry_too_early".into(), format!("attempt {} started {gap}ms after attempt {k} failed; the policy's delay is at least {need}ms", k + 1)));
         }
+        // ... and not (much) longer either: "waits the policy's delay", with the same freedom in
+        // the numbering; every request starts its own count. Timers fire at the next
+        // millisecond, the inner service is ready at once and the call is polled promptly, so
+        // the retry starts at the first whole millisecond >= the delay.
+        let most = (cfg.pol.delay_hi(k - 1).max(cfg.pol.delay_hi(k)) - 1e-9).ceil();
+        if gap > most {
+            viols.push(("retry_too_late".into(), format!("attempt {} started {gap}ms after attempt {k} failed; the policy's delay for retry {k} of this request is at most {most}ms", k + 1)));
+        }
         if cfg.pol == Pol::None {
             viols.push(("retried_without_policy".into(), "policy none but the request was retried".into()));
         }
@@ -246,6 +261,15 @@ fn run_one(cfg: &Cfg, prelude: &[u8], script: &[u8], trace: bool) -> (Vec<(Strin
             }
         }
         (CallStatus::Err(e), Outcome::Layer(t)) => {
+            // giving up on a connection failure is only allowed once max_attempts+1 calls have
+            // been made (or when retrying is switched off / there is no policy)
+            let exhausted = match cfg.max {
+                Some(m) => n >= m as usize + 1,
+                None => false,
+            };
+            if is_reconnectable(cfg, e.kind) && cfg.retry_on_reconnect && cfg.pol != Pol::None && !exhausted {
+                viols.push(("gave_up_early".into(), format!("the call failed after {n} inner calls on a connection failure although max_attempts={:?} allows more (returned {t})", cfg.max)));
+            }
             if !t.ends_with(&format!("wraps=Some({})", e.id)) {
                 viols.push(("error_does_not_wrap_last_inner_error".into(), format!("last inner error id {} but the call returned {t}", e.id)));
             }
